@@ -36,6 +36,16 @@ import pickle as _pickle
 UnpicklingError = _pickle.UnpicklingError
 
 
+def _lit(x):
+    """counter-model inputs that are lists arrive as their repr"""
+    if isinstance(x, str) and x[:1] in "[({":
+        try:
+            return ast.literal_eval(x)
+        except (ValueError, SyntaxError):
+            return x
+    return x
+
+
 def _exc_name(exc):
     return exc.cls.name if isinstance(exc.cls, ClassVal) else getattr(exc.cls, "__name__", str(exc.cls))
 
@@ -164,8 +174,8 @@ def replay_find_point(inputs, clause):
     from scenic.core.vectors import Vector
     from scenic.domains.driving.roads import Network
 
-    states = inputs.get("states")
-    order = inputs.get("elems")
+    states = _lit(inputs.get("states"))
+    order = _lit(inputs.get("elems"))
     tol = inputs.get("tolerance")
     reject = inputs.get("reject")
     if states is None or order is None:
